@@ -124,6 +124,7 @@ namespace vf
             {
                 // blocks are re-poisoned on release; nothing else to do
             }
+            skew_        = 0;
             policy_      = policy % n_policies;
             gap_         = policy_ == adjacent ? 0 : (gap + 15) / 16 * 16;
             up_          = lo_ + 4096;
@@ -154,6 +155,12 @@ namespace vf
             return reinterpret_cast<void*>(a);
         }
 
+        // the next allocations are placed at (16-aligned address + skew): the residue modulo 16 of
+        // what an upstream returns is an input (only the requested alignment is promised)
+        void set_skew(size_t s)
+        {
+            skew_ = s % 16;
+        }
         // k = 1-based index of the upstream allocation call that shall fail; 0 = never
         void fail_at(unsigned k)
         {
@@ -200,8 +207,10 @@ namespace vf
                 else
                 {
                     auto a = (reinterpret_cast<uintptr_t>(up_) + align - 1) / align * align;
-                    p      = reinterpret_cast<char*>(a);
-                    up_    = p + bytes + gap_;
+                    if (skew_ && req_align <= skew_ && skew_ % req_align == 0)
+                        a += skew_;
+                    p   = reinterpret_cast<char*>(a);
+                    up_ = p + bytes + gap_;
                 }
                 if (up_ + 4096 > down_)
                 {
@@ -353,7 +362,7 @@ namespace vf
         char *                 up_ = nullptr, *down_ = nullptr, *obj_lo_ = nullptr, *obj_hi_ = nullptr;
         char *                 touched_lo_ = nullptr, *touched_hi_ = nullptr;
         unsigned               policy_ = 0;
-        size_t                 gap_    = 64;
+        size_t                 gap_    = 64, skew_ = 0;
         uint64_t               seq_    = 0;
         unsigned               fail_at_ = 0, alloc_calls_ = 0, lifo_violations_ = 0;
         std::vector<SlabBlock> out_, free_;
